@@ -32,6 +32,8 @@ def run(ctx):
         ctx.guard("C03", "traits", lambda: vis.trait_census(ctx, prog, scope='for internals::generate::Generator$'))
         if c.startswith("unsafe"):
             ctx.guard("C03", "mirror", lambda: engine.mirror(ctx, prog))
+            base = ctx.prog("dbg" if c.endswith("_dbg") else "rel")
+            ctx.guard("C03", "enginemap", lambda: engine.engine_correspondence(ctx, base, prog))
         if c != "nodef":
             ctx.guard("C03", "buf", lambda: errflow.buf(ctx, prog))
             ctx.guard("C03", "stream", lambda: errflow.stream_common(ctx, prog))
